@@ -692,11 +692,12 @@ class Scene:
             print("   Norm of final residual vector: {0}".format(np.linalg.norm(info["fvec"])))
 
         # Check for no solution
-        if verbose and ier != 1:
-            print("Scipy.optimize.fsolve was unable to find a solution.")
-            print("Error message: {0}".format(mesg))
-            print("Norm of final residual vector: {0}".format(np.linalg.norm(info["fvec"])))
-            print("Scipy solver failed. Reverting to nonlinear solution...")
+        if ier != 1:
+            if verbose:
+                print("Scipy.optimize.fsolve was unable to find a solution.")
+                print("Error message: {0}".format(mesg))
+                print("Norm of final residual vector: {0}".format(np.linalg.norm(info["fvec"])))
+                print("Scipy solver failed. Reverting to nonlinear solution...")
             return -1
 
         return time.time()-start_time
